@@ -39,6 +39,40 @@ def specs():
     return out
 
 
+# ----------------------------------------------------------------------------- cache of sampled pre-states
+# The finite-domain search for a well-formed pre-state inside the preconditions (engine self-validation: the symbolic heap
+# semantics is cross-checked against a native run on real objects) costs z3 30-90 s per sample and does not depend on the code
+# under check, only on WF + the requires + the variant.  Samples are therefore remembered under the hash of exactly those
+# formulas (engine/vcg/sample_cache.json, rewritten with --write-baseline); any change of a formula is a cache miss.
+_CACHE = None
+_NEW = {}
+
+
+def _cache():
+    global _CACHE
+    if _CACHE is None:
+        try: _CACHE = json.load(open(os.path.join(VERIF, 'engine', 'vcg', 'sample_cache.json')))
+        except (OSError, ValueError): _CACHE = {}
+    return _CACHE
+
+
+def _sample_cached(tag, formulas, compute):
+    """compute() -> JSON-able description of the sample (or None).  Returns (description or None, from_cache)."""
+    import hashlib
+    key = hashlib.sha1((tag + '|' + '|'.join(f.sexpr() for f in formulas)).encode()).hexdigest()
+    c = _cache()
+    if key in c: return c[key], True
+    d = compute()
+    if d is not None:
+        d = json.loads(json.dumps(d))      # the form it will have when read back
+        _NEW[key] = d
+    return d, False
+
+
+def _objs(d):
+    return {int(k): v for k, v in d.items()}
+
+
 def _prove_formula(hyp, goal, out):
     """(1) E-matching only (fast on these VCs), (2) z3 default (MBQI) as second opinion; solver budgets are wall-clock, so an
     `unknown` gets one more attempt with four times the budget (a loaded machine must not turn a proof into "undecided")."""
@@ -70,6 +104,8 @@ def _verify(item):
     import thermosteam  # noqa
     nw = sys.modules['thermosteam.network']
     from engine.vcg import heap as H
+    import itertools as _it
+    H._cnt = _it.count()          # fresh names are numbered per operation: formulas (and the keys of the sample cache) are reproducible
     t0 = time.time()
     out = {'name': name, 'obligations': [], 'paths': 0, 'unsupported': None, 'functions': [], 'solver_s': 0.0}
     try:
@@ -189,13 +225,17 @@ def _verify(item):
         NDOM = 8
 
         def sample(extra):
-            m = HN.find_model(plain_wf0 + pre + extra, arg_consts, h0, N=NDOM, timeout_ms=max(20000, TIMEOUT_MS // 2))
-            if m is None:
-                if HN.find_model.last_status != 'unsat': out['sample_timeouts'] = out.get('sample_timeouts', 0) + 1
-                return None
-            vals = {'self': HN._val(m, self_)}
-            for k_, c_ in info.items(): vals[k_] = HN._val(m, c_)
-            return HN.extract(m, h0, NDOM), vals
+            def compute():
+                m = HN.find_model(plain_wf0 + pre + extra, arg_consts, h0, N=NDOM, timeout_ms=max(20000, TIMEOUT_MS // 2))
+                if m is None:
+                    if HN.find_model.last_status != 'unsat': out['sample_timeouts'] = out.get('sample_timeouts', 0) + 1
+                    return None
+                vals = {'self': HN._val(m, self_)}
+                for k_, c_ in info.items(): vals[k_] = HN._val(m, c_)
+                return {'objs': HN.extract(m, h0, NDOM), 'vals': vals}
+            d, hit = _sample_cached(name, plain_wf0 + pre + extra, compute)
+            if hit: out['samples_from_cache'] = out.get('samples_from_cache', 0) + 1
+            return None if d is None else (_objs(d['objs']), d['vals'])
         out['t_prove'] = round(out['solver_s'], 1)
         t_s = time.time()
         all_proved = all(v == 'unsat' for _, v in out['obligations'])
@@ -254,6 +294,7 @@ def _verify(item):
     except Exception as e:
         out['error'] = f'{type(e).__name__}: {e}\n{traceback.format_exc()[-1200:]}'
     out['wall_s'] = time.time() - t0
+    out['new_samples'] = dict(_NEW)
     return out
 
 
@@ -268,6 +309,8 @@ def _verify_extend(item):
     import thermosteam  # noqa
     nw = sys.modules['thermosteam.network']
     from engine.vcg import heap as H
+    import itertools as _it
+    H._cnt = _it.count()          # fresh names are numbered per operation: formulas (and the keys of the sample cache) are reproducible
     from engine.vcg import heap_native as HN
     t0 = time.time()
     out = {'name': name, 'obligations': [], 'paths': 0, 'unsupported': None, 'functions': [], 'solver_s': 0.0}
@@ -385,7 +428,10 @@ def _verify_extend(item):
         it_out = next(((pc, h1) for kind, pc, h1, v in outs if kind == 'iteration'), None)
         if it_out is not None:
             pc, h1 = it_out
-            if _prove(hyps + pc, sel(h1.llen, S) == L0) == 'unsat':
+            s_ = z3.Solver(); s_.set('auto_config', False); s_.set('smt.mbqi', False); s_.set('timeout', 5000)
+            for x_ in hyps + pc: s_.add(x_)
+            s_.add(sel(h1.llen, S) != L0)
+            if s_.check() == z3.unsat:       # the wrong claim would be PROVABLE: the hypotheses are contradictory
                 out['obligations'].append(('vacuity: the wrong invariant "the list never grows" is refuted', 'sat'))
         out['t_prove'] = round(out['solver_s'], 1)
 
@@ -419,19 +465,23 @@ def _verify_extend(item):
         if os.environ.get('VERIF_TIER', 'quick') != 'thorough': variants = variants[:2]
         for extra_ in variants:
             try:
-                mdl = HN.find_model(plain_wf0 + pre + small + extra_, [S], h0, N=NDOM, timeout_ms=max(20000, TIMEOUT_MS // 2))
-                if mdl is None:
-                    if HN.find_model.last_status != 'unsat': out['sample_timeouts'] = out.get('sample_timeouts', 0) + 1
-                    continue
-                objs = HN.extract(mdl, h0, NDOM)
-                ids = [HN._val(mdl, a(i)) for i in range(HN._val(mdl, n))]
-                nat = native(objs, HN._val(mdl, S), ids)
-                out['cross_checks'].append({'inputs': {'self': HN._val(mdl, S), 'streams': ids}, 'objects': len(objs), **nat})
+                def compute():
+                    mdl = HN.find_model(plain_wf0 + pre + small + extra_, [S], h0, N=NDOM, timeout_ms=max(20000, TIMEOUT_MS // 2))
+                    if mdl is None:
+                        if HN.find_model.last_status != 'unsat': out['sample_timeouts'] = out.get('sample_timeouts', 0) + 1
+                        return None
+                    return {'objs': HN.extract(mdl, h0, NDOM), 'self': HN._val(mdl, S), 'ids': [HN._val(mdl, a(i)) for i in range(HN._val(mdl, n))]}
+                d_, hit = _sample_cached(name, plain_wf0 + pre + small + extra_, compute)
+                if d_ is None: continue
+                if hit: out['samples_from_cache'] = out.get('samples_from_cache', 0) + 1
+                objs, ids, self_id = _objs(d_['objs']), d_['ids'], d_['self']
+                nat = native(objs, self_id, ids)
+                out['cross_checks'].append({'inputs': {'self': self_id, 'streams': ids}, 'objects': len(objs), **nat})
                 ok_exc = nat['exception'] in (None, 'RuntimeError')
                 if not nat['wf_pre'] and (nat['wf_post'] or nat['effects_failed'] or not ok_exc):
                     if all_proved:
                         out['obligations'].append(('cross-check: native run of a sampled well-formed pre-state keeps WF', 'sat'))
-                    out['replays'] = out.get('replays', []) + [{'clause': 'cross-check', 'heap': objs, 'inputs': {'self': HN._val(mdl, S), 'streams': ids}, 'native': nat}]
+                    out['replays'] = out.get('replays', []) + [{'clause': 'cross-check', 'heap': objs, 'inputs': {'self': self_id, 'streams': ids}, 'native': nat}]
                     break
             except Exception as e:
                 out['cross_checks'].append({'error': f'{type(e).__name__}: {e}'})
@@ -463,6 +513,7 @@ def _verify_extend(item):
     except Exception as e:
         out['error'] = f'{type(e).__name__}: {e}\n{traceback.format_exc()[-1200:]}'
     out['wall_s'] = time.time() - t0
+    out['new_samples'] = dict(_NEW)
     return out
 
 
@@ -553,6 +604,8 @@ def _verify_set_streams(item):
     import thermosteam  # noqa
     nw = sys.modules['thermosteam.network']
     from engine.vcg import heap as H
+    import itertools as _it
+    H._cnt = _it.count()          # fresh names are numbered per operation: formulas (and the keys of the sample cache) are reproducible
     from engine.vcg import heap_native as HN
     t0 = time.time()
     out = {'name': name, 'obligations': [], 'paths': 0, 'unsupported': None, 'functions': [], 'solver_s': 0.0}
@@ -719,13 +772,19 @@ def _verify_set_streams(item):
             res['effects_failed'] = sorted(set(eff))
             return res
 
-        def run_model(mdl, h, j_from=0):
-            objs = HN.extract(mdl, h, NDOM)
+        def describe(mdl, h):
             nv = HN._val(mdl, n)
             ids = [HN._val(mdl, a(k_)) for k_ in range(nv)]
-            inputs = {'self': HN._val(mdl, S), 'streams': ids, 'slice': [HN._val(mdl, sa), None if HN._val(mdl, sb_none) else HN._val(mdl, sb)]}
-            nat = native(objs, inputs['self'], ids, inputs['slice'][0], inputs['slice'][1], inputs['slice'][1] is None)
+            return {'objs': HN.extract(mdl, h, NDOM),
+                    'inputs': {'self': HN._val(mdl, S), 'streams': ids, 'slice': [HN._val(mdl, sa), None if HN._val(mdl, sb_none) else HN._val(mdl, sb)]}}
+
+        def run_desc(d_):
+            objs, inputs = _objs(d_['objs']), d_['inputs']
+            nat = native(objs, inputs['self'], inputs['streams'], inputs['slice'][0], inputs['slice'][1], inputs['slice'][1] is None)
             return objs, inputs, nat
+
+        def run_model(mdl, h, j_from=0):
+            return run_desc(json.loads(json.dumps(describe(mdl, h))))
 
         out['cross_checks'] = []
         all_proved = all(v == 'unsat' for _, v in out['obligations'])
@@ -737,11 +796,16 @@ def _verify_set_streams(item):
         if os.environ.get('VERIF_TIER', 'quick') != 'thorough': variants = variants[:2]
         for extra_ in variants:
             try:
-                mdl = HN.find_model(plain_wf0 + pre + small + extra_, [S], h0, N=NDOM, timeout_ms=max(20000, TIMEOUT_MS // 2))
-                if mdl is None:
-                    if HN.find_model.last_status != 'unsat': out['sample_timeouts'] = out.get('sample_timeouts', 0) + 1
-                    continue
-                objs, inputs, nat = run_model(mdl, h0)
+                def compute():
+                    mdl = HN.find_model(plain_wf0 + pre + small + extra_, [S], h0, N=NDOM, timeout_ms=max(20000, TIMEOUT_MS // 2))
+                    if mdl is None:
+                        if HN.find_model.last_status != 'unsat': out['sample_timeouts'] = out.get('sample_timeouts', 0) + 1
+                        return None
+                    return describe(mdl, h0)
+                d_, hit = _sample_cached(name, plain_wf0 + pre + small + extra_, compute)
+                if d_ is None: continue
+                if hit: out['samples_from_cache'] = out.get('samples_from_cache', 0) + 1
+                objs, inputs, nat = run_desc(d_)
                 out['cross_checks'].append({'inputs': inputs, 'objects': len(objs), **nat})
                 if not nat['wf_pre'] and (nat['wf_post'] or nat['effects_failed'] or nat['exception'] is not None):
                     if all_proved:
@@ -777,6 +841,7 @@ def _verify_set_streams(item):
     except Exception as e:
         out['error'] = f'{type(e).__name__}: {e}\n{traceback.format_exc()[-1200:]}'
     out['wall_s'] = time.time() - t0
+    out['new_samples'] = dict(_NEW)
     return out
 
 
@@ -799,6 +864,8 @@ def _verify_unit_op(item):
     import thermosteam  # noqa
     nw = sys.modules['thermosteam.network']
     from engine.vcg import heap as H
+    import itertools as _it
+    H._cnt = _it.count()          # fresh names are numbered per operation: formulas (and the keys of the sample cache) are reproducible
     t0 = time.time()
     out = {'name': name, 'obligations': [], 'paths': 0, 'unsupported': None, 'functions': [], 'solver_s': 0.0}
     try:
@@ -900,6 +967,7 @@ def _verify_unit_op(item):
     except Exception as e:
         out['error'] = f'{type(e).__name__}: {e}\n{traceback.format_exc()[-1200:]}'
     out['wall_s'] = time.time() - t0
+    out['new_samples'] = dict(_NEW)
     return out
 
 
@@ -1031,4 +1099,11 @@ def run(prop, tier, jobs, seed):
            'solver_time_U_s': round(sum(r.get('solver_s', 0) for r in res), 2),
            'trusted_base': ['heap VCG engine (engine/vcg/heap.py): Burstall-Bornat memory model, list theory, allocation, loop summaries over port lists',
                             'dropped from the source: warn(...) calls with their guarding if, stacklevel arithmetic']}
+    new_samples = {}
+    for r in res: new_samples.update(r.get('new_samples') or {})
+    cov['samples_from_cache'] = sum(r.get('samples_from_cache', 0) for r in res)
+    cov['samples_computed'] = len(new_samples)
+    if new_samples and os.environ.get('VERIF_WRITE_SAMPLE_CACHE') == '1':
+        c = dict(_cache()); c.update(new_samples)
+        json.dump(c, open(os.path.join(VERIF, 'engine', 'vcg', 'sample_cache.json'), 'w'), indent=0, sort_keys=True)
     return {'status': status, 'coverage': cov, 'baseline': newbase, 'violations': viol, 'wall_s': time.time() - t0}
